@@ -256,7 +256,6 @@ func verif_contract_Session_onlineTransition(h *Session, host *Host) {
 	vEnsures(spec_session_wf(h))
 }
 
-
 func spec_off_ok(off int, n int) bool { return off == 0 || (14 <= off && off <= n) }
 
 // spec_frame_wf: the offsets recorded in a Frame lie inside the packet and the
